@@ -3,31 +3,53 @@
    Model: Model/Peg.v ([run g cfg orc memo fuel input]: the Arpeggio interpreter on the parser model
    dumped from the live textX parser, parameterised by the terminal oracle and the memoization flag).
 
-   Full statement aimed at (C19_memo_safe):
-     forall g in the exact class  { no node sets rule-level ws/skipws, no eolterm repetition, no
-     memoizable node shared between the comment model and the main model, comment model absent
-     or a single terminal },
-     forall cfg orc fuel input, the un-memoized run does not abort ->
-       run g cfg orc true fuel input = run g cfg orc false fuel input.
-   Proved below: the same statement for the sub-class ctx_constant, which additionally excludes
-   grammars whose Comment rule is a single terminal and grammars with unordered groups
-   (proof-technical exclusions: comment_positions would need its own validity invariant; the
-   unordered-group loops are proved for the A0 layer only).  Each of the four semantic exclusions
-   is shown necessary by a refuted theorem with a vm_compute witness that replays on the
-   implementation (corpus/C19). *)
-From TxV Require Import Core.Base Model.PegSyntax Model.Peg Proofs.PegProofs Proofs.PegMemo.
+   The class: [ctx_constant g] = no node sets rule-level ws/skipws, no eolterm repetition, and the
+   comment model is absent or a single terminal (a Match node is never memoized, so no memoizable
+   node is shared with the main grammar).  Each exclusion is shown necessary by a refuted theorem with
+   a vm_compute witness that replays on the implementation (corpus/C19): rule modifier, eolterm, rule
+   shared with the Comment rule, Comment rule that is not a single terminal. *)
+From TxV Require Import Core.Base Model.PegSyntax Model.Peg Proofs.PegProofs Proofs.PegMemo Proofs.PegFuel.
 
-(* For every context-constant grammar, every parser configuration, every terminal oracle, every
-   input and every fuel for which the un-memoized interpreter terminates, the memoized interpreter
-   returns exactly the same outcome: the same parse tree (node ids, positions, lengths, suppress
-   flags) on acceptance, the same error position on rejection. *)
-Theorem C19_memo_safe_partial :
+(* For every grammar in the class (sequences, ordered choice, optional, repetitions with separators,
+   unordered groups, predicates, suppression, any terminals; optional single-terminal Comment rule),
+   every parser configuration (skipws on or off, any ws), every terminal oracle, every input and every
+   fuel for which the un-memoized interpreter terminates, the memoized interpreter returns exactly the
+   same outcome: the same parse tree (node ids, positions, lengths, suppress flags) on acceptance, the
+   same error position on rejection. *)
+Theorem C19_memo_safe :
   forall g cfg orc fuel input,
     ctx_constant g = true ->
     not_aborted (run g cfg orc false fuel input) ->
     run g cfg orc true fuel input = run g cfg orc false fuel input.
 Proof. intros g cfg orc fuel input Hc Hn. exact (memo_safe g input orc Hc cfg fuel Hn). Qed.
-Print Assumptions C19_memo_safe_partial.
+Print Assumptions C19_memo_safe.
+
+(* Fuel is irrelevant once it suffices (for EVERY grammar, also outside the class, and both
+   memoization settings): an outcome other than "out of fuel" is the outcome for every larger fuel. *)
+Theorem C19_run_fuel_mono :
+  forall g cfg orc memo f f' input,
+    f <= f' -> run g cfg orc memo f input <> Aborted 0 ->
+    run g cfg orc memo f' input = run g cfg orc memo f input.
+Proof. exact run_fuel_mono. Qed.
+Print Assumptions C19_run_fuel_mono.
+
+(* hence the two interpreters may be given different (sufficient) amounts of fuel *)
+Theorem C19_memo_safe_any_fuel :
+  forall g cfg orc f f' input,
+    ctx_constant g = true ->
+    not_aborted (run g cfg orc false f input) -> f <= f' ->
+    run g cfg orc true f' input = run g cfg orc false f input.
+Proof. exact memo_safe_any_fuel. Qed.
+Print Assumptions C19_memo_safe_any_fuel.
+
+(* non-vacuity with a Comment rule: `Model: xs+=X[','] ';' | xs+=X[','] '.'; X: 'x' | /\d+/;
+   Comment: /\/\/.*?$/;` accepts `x, // c\n 1, x.` with memoization on *)
+Example C19_memo_safe_comment_nonvacuous :
+  ctx_constant g_exc = true /\ c_skipws c_default = true /\
+  accepts (run g_exc c_default (orc_of tbl_exc) true 100 in_exc) = true /\
+  run g_exc c_default (orc_of tbl_exc) true 100 in_exc = run g_exc c_default (orc_of tbl_exc) false 100 in_exc.
+Proof. exact example_in_class_comment. Qed.
+Print Assumptions C19_memo_safe_comment_nonvacuous.
 
 (* non-vacuity of the hypotheses: a grammar in the class with backtracking over a shared rule
    (`Model: xs+=X[','] ';' | xs+=X[','] '.'; X: 'x' | /\d+/;`), accepted `x, 1, x.` and rejected
